@@ -322,6 +322,7 @@ class SimpleHeatPumpCycle:
         t_unit: str = "C",
     ) -> float:
         """Solve the cycle using saturation temperatures, superheat, and subcooling."""
+        self._solved = False  # results are only valid again once this solve completes
         self._validate_solve_inputs(
             refrigerant=refrigerant,
         )
